@@ -1,7 +1,8 @@
 """C06 - Parsing any byte string terminates and fails only with a protocol error.
 
 T1 (A2)  every loop in the call-graph reach of Message.parse has a variant; no recursion.
-T2 (A1)  the escape set of Message.parse is a subset of the IkeSaError family.
+T2 (A1)  the escape set of Message.parse is a subset of the IkeSaError family; octets read from the wire are compared with
+         enumeration members by value, never by identity.
 """
 import ast
 
@@ -71,6 +72,10 @@ def run(ctx):
     ctx.require(hier.known(family), 'anchor vanished: protocol-error base class IkeSaError')
     escaping = esc.escapes(parse)
     ctx.floor('T2 exception classes leaving Message.parse', len(escaping), 1)
+    # an attribute set only under `payload_type == SK` and read under `payloads[-1].type == SK` is there when both tests agree:
+    # they do as long as the octet read from the wire is compared by value (identity with an enumeration member fails for a plain int,
+    # the SK payload is then built without its next_payload_type and reading it raises AttributeError)
+    ctx.stats['T2 identity comparisons with enumeration members in the reach'] = common.identity_with_raw_int(ctx, 'T2', quals)
     allowed_seen = []
     for exc, origins in sorted(escaping.items()):
         if hier.is_sub(exc, family):
